@@ -4,7 +4,7 @@ from http.server import BaseHTTPRequestHandler
 from urllib.parse import urlparse
 
 from .compression import CompressionHandler
-from .httpreader import HTTPReader, mk_chunks
+from .httpreader import DechunkError, DecompressError, HTTPReader, InvalidFramingError, mk_chunks
 from sdc11073.exceptions import InvalidPathError
 
 
@@ -41,12 +41,26 @@ class DispatchingRequestHandler(BaseHTTPRequestHandler):
     def get_first_path_element(self):
         parsed_path = urlparse(self.path)
         path_elements = parsed_path.path.split('/')
-        if len(path_elements[0]) > 0:
+        if len(path_elements[0]) > 0 or len(path_elements) == 1:
             return path_elements[0]
         return path_elements[1]
 
+    def _send_plain_response(self, status: int, reason: str):
+        self.send_response(status, reason)
+        self.send_header("Content-type", "text/plain; charset=utf-8")
+        self.send_header("Content-length", "0")
+        self.end_headers()
+
     def do_POST(self):  # pylint: disable=invalid-name
-        request_bytes = self._read_request()
+        try:
+            request_bytes = self._read_request()
+        except (DechunkError, InvalidFramingError, DecompressError) as ex:
+            # position in input stream is undefined now => close this connection
+            self.close_connection = True  # pylint: disable=attribute-defined-outside-init
+            self.server.logger.error('could not read request {} (request from {}): {}', self.path, self.client_address, ex)
+            status = 415 if isinstance(ex, DecompressError) else 400
+            self._send_plain_response(status, type(ex).__name__)
+            return
         if self.server.dispatcher is None:
             # close this connection
             self.close_connection = True  # pylint: disable=attribute-defined-outside-init
@@ -106,7 +120,12 @@ class DispatchingRequestHandler(BaseHTTPRequestHandler):
             self.send_response(404, response_xml_string)  # not found
             return
 
-        component = self.server.dispatcher.get_instance(self.get_first_path_element())
+        try:
+            component = self.server.dispatcher.get_instance(self.get_first_path_element())
+        except InvalidPathError as ex:
+            self.server.logger.error('invalid path {} (request from {}): {}', self.path, self.client_address, ex.reason)
+            self._send_plain_response(ex.status, ex.reason)
+            return
 
         peer_name = self.connection.getpeername()
         result = component.do_get(self.headers, self.path, peer_name)
